@@ -15,26 +15,21 @@ func (in *interp) call(e *bn.Call, env *Env) Value {
 		in.unspecified("calling an undetermined value")
 	case KFun:
 		f := callee.F
-		if len(e.Args) != len(f.Decl.Params) {
-			for _, a := range e.Args {
-				if !Pure(a) {
-					in.unspecified("order of an arity failure against its arguments' effects")
-				}
-			}
-			panic(rtErr{kind: EArity, line: e.Line, counts: [2]int{len(f.Decl.Params), len(e.Args)}})
-		}
+		// every argument is evaluated, left to right, before the call is attempted (C14): a wrong count is
+		// found when the call is made
 		args := make([]Value, len(e.Args))
 		for i, a := range e.Args {
 			args[i] = in.eval(a, env)
+		}
+		if len(e.Args) != len(f.Decl.Params) {
+			panic(rtErr{kind: EArity, line: e.Line, counts: [2]int{len(f.Decl.Params), len(e.Args)}})
 		}
 		return in.invoke(f, args)
 	case KBuiltin:
 		return in.builtin(callee.Bi, e, env)
 	}
 	for _, a := range e.Args {
-		if !Pure(a) {
-			in.unspecified("order of a non-callable failure against its arguments' effects")
-		}
+		in.eval(a, env)
 	}
 	in.fail(ENotCallable, e.Line, "")
 	return NilV()
@@ -107,18 +102,14 @@ func (in *interp) builtin(name string, e *bn.Call, env *Env) Value {
 			bad = n > 1
 		}
 	}
-	if bad {
-		for _, a := range e.Args {
-			if !Pure(a) {
-				in.unspecified("order of a built-in's argument-count failure against its arguments' effects")
-			}
-		}
-		// wrong count: the diagnostic kind may be the generic arity one or the built-in's own
-		panic(rtErr{kind: EBuiltin, line: line, name: "count"})
-	}
 	args := make([]Value, n)
 	for i, a := range e.Args {
 		args[i] = in.eval(a, env)
+	}
+	if bad {
+		// wrong count (found once the arguments have been evaluated): the diagnostic kind may be the generic
+		// arity one or the built-in's own
+		panic(rtErr{kind: EBuiltin, line: line, name: "count"})
 	}
 	in.tag("builtin")
 	for _, a := range args {
